@@ -94,7 +94,7 @@ func (c *componentOffset) data() []byte {
 func componentFromBytes(bytes []byte) componentOffset {
 	c := componentOffset{}
 	c.componentTag = bytes[0]
-	pts := (uint64(bytes[1]) << 32 & 0x01) | (uint64(bytes[2]) << 24) |
+	pts := (uint64(bytes[1]&0x01) << 32) | (uint64(bytes[2]) << 24) |
 		(uint64(bytes[3]) << 16) | (uint64(bytes[4]) << 8) | uint64(bytes[5])
 	c.ptsOffset = gots.PTS(pts)
 	return c
@@ -234,7 +234,8 @@ func (d *segmentationDescriptor) parseDescriptor(data []byte) error {
 			if buf.Len() < 10 {
 				return gots.ErrInvalidSCTE35Length
 			}
-			d.duration = uint40(buf.Next(5))
+			db := buf.Next(5)
+			d.duration = gots.PTS(db[0])<<32 | gots.PTS(binary.BigEndian.Uint32(db[1:]))
 		}
 		// Upid unneeded now...
 		d.upidType = SegUPIDType(readByte())
@@ -248,11 +249,17 @@ func (d *segmentationDescriptor) parseDescriptor(data []byte) error {
 			// Iterate over the whole MID len(segUpidLen) to get all `n` UPIDs
 			// segUpidLen is in bytes.
 			for segUpidLen != 0 {
+				if segUpidLen < 2 || buf.Len() < 2 {
+					return gots.ErrInvalidSCTE35Length
+				}
 				UpidElem := upidSt{}
 				UpidElem.upidType = SegUPIDType(readByte())
 				segUpidLen -= 1
 				UpidElem.upidLen = int(readByte())
 				segUpidLen -= 1
+				if UpidElem.upidLen > segUpidLen || UpidElem.upidLen > buf.Len() {
+					return gots.ErrInvalidSCTE35Length
+				}
 				UpidElem.upid = buf.Next(UpidElem.upidLen)
 				segUpidLen -= UpidElem.upidLen
 				d.mid = append(d.mid, UpidElem)
